@@ -402,11 +402,29 @@ func vfGenExt(t *rapid.T, idx int, earlier []vfExt) vfExt {
 	// the same name may be registered again (under the same or another parent), or collide with
 	// a built-in format: every Extend call still adds a new node in front of the existing siblings
 	// the primary name is stored and looked up verbatim: upper-case letters and parameters are legal
-	switch rapid.IntRange(0, 11).Draw(t, "namestyle") {
+	switch rapid.IntRange(0, 13).Draw(t, "namestyle") {
+	case 12: // names, extensions and aliases of any length are legal
+		n := rapid.SampledFrom([]int{64, 255, 256, 1000, 5000}).Draw(t, "longname")
+		e.Mime = fmt.Sprintf("application/x-verif-%d-%s", idx, strings.Repeat("x", n))
+		e.Ext = fmt.Sprintf(".vf%d%s", idx, strings.Repeat("y", n/4))
+		e.Aliases = append(e.Aliases, fmt.Sprintf("application/x-verif-alias-%d-%s", idx, strings.Repeat("z", n)))
 	case 0:
 		e.Mime = fmt.Sprintf("Application/X-Verif-%d", idx)
 	case 1:
 		e.Mime = fmt.Sprintf("application/x-verif-%d; version=2", idx)
+	}
+	// a decorated primary name (upper case, parameters) may come with the bare lower-case
+	// spelling as an alias: Lookup compares raw strings, so both spellings must be found
+	if (e.Mime != strings.ToLower(e.Mime) || strings.Contains(e.Mime, ";")) && rapid.Bool().Draw(t, "barealias") {
+		bare := strings.ToLower(e.Mime)
+		if i := strings.Index(bare, ";"); i >= 0 {
+			bare = bare[:i]
+		}
+		e.Aliases = append(e.Aliases, bare)
+	}
+	// a format need not have a file extension
+	if rapid.IntRange(0, 9).Draw(t, "noext") == 0 {
+		e.Ext = ""
 	}
 	switch rapid.IntRange(0, 9).Draw(t, "dup") {
 	case 0:
